@@ -11,17 +11,40 @@ pub struct PeerService {
     // TODO: add versioning info here for application services for #622
 }
 
+/// the text form joins the fields of a service with '|' and the services of a list with ';'. a field is
+/// free text: where it contains one of the two (or the escape character itself) the character is written
+/// as '%' and two hex digits, so that the list that is read back is the list that was written
+fn escape_field(field: &str) -> String {
+    let mut escaped = String::with_capacity(field.len());
+    for c in field.chars() {
+        match c {
+            '%' => escaped.push_str("%25"),
+            '|' => escaped.push_str("%7C"),
+            ';' => escaped.push_str("%3B"),
+            c => escaped.push(c),
+        }
+    }
+    escaped
+}
+
+fn unescape_field(field: &str) -> String {
+    field
+        .replace("%7C", "|")
+        .replace("%3B", ";")
+        .replace("%25", "%")
+}
+
 impl TryFrom<String> for PeerService {
     type Error = std::io::Error;
 
     fn try_from(value: String) -> Result<PeerService, std::io::Error> {
-        let values: Vec<&str> = value.split('|').collect();
+        let values: Vec<String> = value.split('|').map(unescape_field).collect();
         if values.len() != 3 {
             return Err(Error::from(ErrorKind::InvalidData));
         }
-        let service = values[0].try_into();
-        let domain = values[1].try_into();
-        let name = values[2].try_into();
+        let service = values[0].as_str().try_into();
+        let domain = values[1].as_str().try_into();
+        let name = values[2].as_str().try_into();
         if service.is_err() {
             return Err(Error::from(ErrorKind::InvalidData));
         }
@@ -41,7 +64,11 @@ impl TryFrom<String> for PeerService {
 
 impl Into<String> for PeerService {
     fn into(self) -> String {
-        self.service + "|" + self.domain.as_str() + "|" + self.name.as_str()
+        escape_field(&self.service)
+            + "|"
+            + escape_field(&self.domain).as_str()
+            + "|"
+            + escape_field(&self.name).as_str()
     }
 }
 
